@@ -71,6 +71,36 @@ func c19Activity(p *core.Prog, r *core.Report) {
 			r.Check(have && got == fmt.Sprint(want), "C19-R1", fname(f), "isMessageTypeCall("+name+")", p.Pos(f.Pos()), "= "+got, fmt.Sprintf("predicate says %s (covered=%v), the property says %v", got, have, want))
 		}
 	}
+	// the accessors the sweep reads return their own timestamp: every atomic
+	// Load in getLastActivityReadTime is on lastActivityRead, in
+	// getLastActivityWriteTime on lastActivityWrite
+	for _, acc := range [][2]string{{"getLastActivityReadTime", "lastActivityRead"}, {"getLastActivityWriteTime", "lastActivityWrite"}} {
+		f := mustFunc(p, r, "", "Connection", acc[0])
+		fld := mustField(p, r, "", "Connection", acc[1])
+		if f == nil || fld == nil {
+			continue
+		}
+		n, bad := 0, ""
+		core.EachInstr(f, func(i ssa.Instruction) {
+			c, ok := i.(*ssa.Call)
+			if !ok {
+				return
+			}
+			if o := core.CalleeObj(c); o == nil || o.Name() != "Load" {
+				return
+			}
+			args := core.CallArgs(c)
+			if len(args) == 0 {
+				return
+			}
+			n++
+			if got := core.AddrField(args[0]); got != fld {
+				bad = "loads " + desc(args[0])
+			}
+		})
+		r.Check(n > 0 && bad == "", "C19-R2", fname(f), "returns "+acc[1], p.Pos(f.Pos()), "the only atomic load is of "+acc[1],
+			"the accessor the idle sweep consults does not return "+acc[1]+" ("+bad+"): frames in that direction no longer count as activity")
+	}
 	// timestamps
 	rf := p.Func("", "Connection", "readFrames")
 	wf := p.Func("", "Connection", "writeFrames")
